@@ -219,6 +219,7 @@ func (ex *Exec) loopWrites(li *loopInfo) (comps map[string]bool, locals map[stri
 				key, _ := ex.calleeKey(c)
 				con := ex.P.Contracts[key]
 				switch {
+				case key == "sync.Once.Do" && ex.onceDoReadOnly(c):
 				case con != nil && con.Pure:
 				case con != nil && con.ModAll:
 					all = true
@@ -291,6 +292,9 @@ func (ex *Exec) typeComps(t types.Type, out map[string]bool) {
 // modComps: component-level write set of a contract's modifies clause (evaluated syntactically on types).
 func (ex *Exec) modComps(con *Contract) (map[string]bool, bool) {
 	out := map[string]bool{}
+	if len(con.Mod) == 0 {
+		return out, !con.ModAll
+	}
 	fn := ex.P.Funcs[con.Key]
 	env, err := ex.contractEnvTypes(con, fn)
 	if err != nil {
